@@ -3,6 +3,7 @@ import LLRP.Model.Supervisor
 /-! oracle verbs of C15 (connection supervisor, TrySend)
 
 `supervisor <initialUp 0|1> <events…>`            the model of the current source (`Sup.cfgSrc`)
+`supervisor-rejcfg <initialUp 0|1> <events…>`     the same; the harness plays `cl` by having the reader refuse the service's own SetReaderConfig
 `supervisor-slowsdk <initialUp 0|1> <events…>`    the same; the harness runs it with an SDK that takes 30 ms per Up report
 `supervisor-intended <initialUp 0|1> <events…>`   the model the property theorems are about (`Sup.cfgIntended`)
   events: `df` dialFail, `hf` handshakeFail, `dr` dropped, `cl` closedLocally, `cs` connStop, `cu:<a>` connUpdate a,
@@ -63,6 +64,7 @@ def handleC15 : Handler := fun args =>
   match args with
   | "supervisor" :: up :: evs => some (supervisorReply cfgSrc up evs)
   | "supervisor-slowsdk" :: up :: evs => some (supervisorReply cfgSrc up evs)
+  | "supervisor-rejcfg" :: up :: evs => some (supervisorReply cfgSrc up evs)
   | "supervisor-intended" :: up :: evs => some (supervisorReply cfgIntended up evs)
   | "supervisor-aswritten" :: up :: evs => some (supervisorReply cfgAsWritten up evs)
   | "trysend" :: outs => some (sendReply trySend outs)
